@@ -434,9 +434,17 @@ class Executor(ExprMixin, StmtMixin, Engine):
                 self.prove(s1, present, 'noraise', line, 'remove-absent')
                 s1.assume(z3.And(0 <= k, k < n, z3.Select(arr, k) == x.e,
                                  z3.ForAll([j], z3.Implies(z3.And(0 <= j, j < k), z3.Select(arr, j) != x.e))))
-                narr = z3.Lambda([i], z3.If(i < k, z3.Select(arr, i), z3.Select(arr, i + 1)))
                 s1.ghost['__last_remove_index__'] = mk_int(k)
-                newl = mk_list(base.t, n - 1, narr)
+                if self.concat_axioms:
+                    newl = self.fresh_val(s1, base.t, 'rm')
+                    s1.assume(list_len(newl) == n - 1)
+                    s1.assume(z3.ForAll([i], z3.Implies(z3.And(0 <= i, i < k), z3.Select(list_arr(newl), i) == z3.Select(arr, i))))
+                    j2 = z3.Int(fresh_name('rj2'))
+                    s1.assume(z3.ForAll([j2], z3.Implies(z3.And(k <= j2, j2 < n - 1),
+                                                        z3.Select(list_arr(newl), j2) == z3.Select(arr, j2 + 1))))
+                else:
+                    narr = z3.Lambda([i], z3.If(i < k, z3.Select(arr, i), z3.Select(arr, i + 1)))
+                    newl = mk_list(base.t, n - 1, narr)
                 for s2 in self.assign(f.value, newl, s1, line):
                     yield s2, NONE_VAL
             elif name == 'insert':
